@@ -277,6 +277,19 @@ func (g *gate) releaseAllDials() {
 	}
 }
 
+// maxID is the highest attempt id the peer has seen.
+func (g *gate) maxID() int {
+	g.mu.Lock()
+	defer g.mu.Unlock()
+	m := 0
+	for id := range g.atts {
+		if id > m {
+			m = id
+		}
+	}
+	return m
+}
+
 // heldIDs lists the attempts currently held, ascending.
 func (g *gate) heldIDs() []int {
 	g.mu.Lock()
